@@ -58,6 +58,7 @@ type tableSection struct {
 // full control over table loading.
 type Loader struct {
 	file   Resource             // source, needed to parse each table
+	size   int64                // total size of file, used to reject out of range tables
 	tables map[Tag]tableSection // header only, contents is processed on demand
 
 	// Type represents the kind of this font being loaded.
@@ -124,9 +125,16 @@ func NewLoaders(file Resource) ([]*Loader, error) {
 	return out, nil
 }
 
+// maxDeflateRatio is the maximum expansion factor of the deflate format (1032:1)
+const maxDeflateRatio = 1032
+
 // dst is an optional storage which may be provided to reduce allocations.
 func (pr *Loader) findTableBuffer(s tableSection, dst []byte) ([]byte, error) {
 	if s.length != 0 && s.length < s.zLength {
+		if int64(s.offset)+int64(s.length) > pr.size || int64(s.zLength) > maxDeflateRatio*int64(s.length) {
+			// do not trust the uncompressed length to allocate memory
+			return nil, io.ErrUnexpectedEOF
+		}
 		zbuf := io.NewSectionReader(pr.file, int64(s.offset), int64(s.length))
 		r, err := zlib.NewReader(zbuf)
 		if err != nil {
@@ -142,6 +150,10 @@ func (pr *Loader) findTableBuffer(s tableSection, dst []byte) ([]byte, error) {
 			return nil, err
 		}
 	} else {
+		if s.length != 0 && int64(s.offset)+int64(s.length) > pr.size {
+			// do not trust the length to allocate memory
+			return nil, io.ErrUnexpectedEOF
+		}
 		if cap(dst) < int(s.length) {
 			dst = make([]byte, s.length)
 		}
